@@ -573,6 +573,15 @@ pub fn scan(src: &str) -> Scan {
     out
 }
 
+/// a link destination as it has to be written: between angle brackets when it holds a space
+pub fn dest(d: &str) -> String {
+    if d.contains(' ') {
+        format!("<{}>", d)
+    } else {
+        d.to_string()
+    }
+}
+
 pub fn is_internal(dest: &str) -> bool {
     let d = dest.to_lowercase();
     !(d.starts_with("http://") || d.starts_with("https://") || d.starts_with("mailto:"))
